@@ -95,6 +95,12 @@ let handle (toks : string list) : string =
        let un = List.filter (fun x -> st.k_unsubd (nat_of_int x)) added in
        Printf.sprintf "accepted closed=%b tracked=%d added=%s unsub=%s" st.k_closed (List.length st.k_tracked)
          (String.concat "." (List.map string_of_int added)) (String.concat "." (List.map string_of_int un)))
+  | "prun" :: ls ->
+    (* closewait / deliver protocol of one TypeMuxSubscription: b=RLock taken, s=sent, c=closing case, g=close(closing), x=close(postC) *)
+    let pp = function "b" -> PBegin | "s" -> PSent | "c" -> PClosedCase | "g" -> PClosing | "x" -> PClose | t -> failwith ("bad plabel " ^ t) in
+    (match prun_from pinit (List.map pp ls) O with
+     | Inr n -> let i = int_of_nat n in "rejected " ^ string_of_int i ^ " " ^ List.nth ls i
+     | Inl st -> Printf.sprintf "accepted closed=%b readers=%d bad=%b" st.p_closed (int_of_nat st.p_ro + int_of_nat st.p_rn) st.p_bad)
   | "mrun" :: ls ->
     (* TypeMux: accepted d=<deliveries> got=<s:p.p.p;...> (posts delivered to each subscription, sorted: concurrent Posts have no common order) panicked=<b> *)
     (match mrun_from minit (List.map mparse ls) O with
@@ -104,7 +110,9 @@ let handle (toks : string list) : string =
        let lg = List.rev_map (fun (p, s) -> (int_of_nat p, int_of_nat s)) st.mlog in
        let got = String.concat ";" (List.map (fun s ->
            string_of_int s ^ ":" ^ String.concat "." (List.map string_of_int (List.sort compare (List.filter_map (fun (p, s') -> if s' = s then Some p else None) lg)))) subs) in
-       Printf.sprintf "accepted d=%d got=%s panicked=%b" (List.length st.mlog) got st.mpanic)
+       let posts = uniq (List.concat_map (fun t -> match String.split_on_char ':' t with ["pcall"; p; _] -> [int_of_string p] | _ -> []) ls) in
+       let perr = List.filter (fun p -> match st.ppcs (nat_of_int p) with PErr -> true | _ -> false) posts in
+       Printf.sprintf "accepted d=%d got=%s perr=%s panicked=%b" (List.length st.mlog) got (String.concat "." (List.map string_of_int perr)) st.mpanic)
   | "enabled" :: l :: ls ->
     (* is label l enabled after the trace ls? *)
     (match run_from init (List.map parse ls) O with
